@@ -13,6 +13,7 @@
             current directory with a double quote in a name the MODEL is wrong (pwd_model_ignores_quote_doubling). *)
 From Coq Require Import ZArith List Bool String Lia.
 From Verif Require Import Lib.Sx Lib.PyStr Lib.Facts Lib.HandlerFacts Model.Session Model.HandlerProg.
+From Verif Require Import Proofs.SessionLogin.
 From Verif Require Gen.Handlers.
 Import ListNotations.
 Open Scope list_scope.
@@ -308,3 +309,106 @@ Proof.
   destruct w as [s fs lg]. destruct s as [u l cw rn rs pa da en]. cbn in *.
   destruct da; reflexivity.
 Qed.
+
+(* ==================================================================================================
+   from the bodies to the whole handler: decorator stack (generic interpreter [run_decos]) around the
+   program denotations, delegation through [self] included *)
+
+Definition conn_fields (ds : list deco) : list string :=
+  flat_map (fun x => match x with DConn fs _ _ => fs | _ => [] end) ds.
+
+Section Lift.
+  Variable users : list user.
+
+  Lemma run_decos_ext ds : forall arg s0 w b1 b2,
+    w_s w = s0 ->
+    (forall w', w_s w' = s0 -> (forall f, In f (conn_fields ds) -> has_field s0 f = true) -> b1 w' = b2 w') ->
+    run_decos users ds arg w b1 = run_decos users ds arg w b2.
+  Proof.
+    induction ds as [|x r IH]; intros arg s0 w b1 b2 Hs H.
+    - cbn [run_decos]. apply H; [exact Hs|]. intros f [].
+    - destruct x as [fields wait fc|cs|ps| |nm]; cbn [run_decos].
+      + destruct (find (fun f => negb (has_field (w_s w) f)) fields) eqn:F; [reflexivity|].
+        apply (IH arg s0); [exact Hs|]. intros w' Hs' Hr. apply H; [exact Hs'|].
+        intros f Hin. unfold conn_fields in Hin. cbn [flat_map] in Hin. apply in_app_or in Hin as [Hin|Hin].
+        * pose proof (find_none _ _ F f Hin) as N. rewrite Hs in N. destruct (has_field s0 f); [reflexivity|discriminate N].
+        * apply Hr. exact Hin.
+      + pose proof (run_conds_sess cs (resolve (s_cwd (w_s w)) arg) w) as E.
+        destruct (run_conds cs (resolve (s_cwd (w_s w)) arg) w) as [w1 ok]. cbn [fst] in E.
+        destruct ok; [|reflexivity]. apply (IH arg s0); [congruence|]. intros w' Hs' Hr. apply H; [exact Hs'|].
+        intros f Hin. apply Hr. exact Hin.
+      + destruct ps as [|p0 ps']; [reflexivity|]. destruct (cur_user users (w_s w)); [|reflexivity].
+        destruct (if String.eqb p0 "readable" then _ else _); [|reflexivity].
+        apply (IH arg s0); [exact Hs|]. intros w' Hs' Hr. apply H; [exact Hs'|]. intros f Hin. apply Hr. exact Hin.
+      + apply (IH arg s0); [exact Hs|]. intros w' Hs' Hr. apply H; [exact Hs'|]. intros f Hin. apply Hr. exact Hin.
+      + apply (IH arg s0); [exact Hs|]. intros w' Hs' Hr. apply H; [exact Hs'|]. intros f Hin. apply Hr. exact Hin.
+  Qed.
+
+  Lemma body_self_ext s1 s2 name arg d appe w :
+    (forall a d' ap w', s1 "cwd" a d' ap w' = s2 "cwd" a d' ap w') ->
+    (forall a d' ap w', s1 "stor" a d' ap w' = s2 "stor" a d' ap w') ->
+    body users s1 name arg d appe w = body users s2 name arg d appe w.
+  Proof.
+    intros Hc Hs. unfold body.
+    repeat match goal with
+    | |- (if String.eqb name ?n then _ else _) = _ => destruct (String.eqb name n); [first [reflexivity | apply Hc | apply Hs]|]
+    end.
+    reflexivity.
+  Qed.
+
+  (* what the reference table guarantees about a handler it knows *)
+  Lemma table_facts name ds dl :
+    handler_of ref_table name = Some (ds, dl) ->
+    mem_s name handler_names = true
+    /\ (name = "rnto" -> mem_s "rename_from" (conn_fields ds) = true)
+    /\ (name = "pass_" -> mem_s "user" (conn_fields ds) = true).
+  Proof.
+    unfold handler_of. cbn [find ref_table L1 app].
+    repeat match goal with
+    | |- context [String.eqb ?a name] =>
+        destruct (String.eqb a name) eqn:E;
+        [apply String.eqb_eq in E; subst name; intros H; injection H as <- <-;
+         split; [reflexivity|split; intros Q; first [discriminate Q | reflexivity]]
+        |clear E]
+    end.
+    intros H. discriminate H.
+  Qed.
+
+  Lemma mem_s_In x l : mem_s x l = true -> In x l.
+  Proof.
+    unfold mem_s. intros H. apply existsb_exists in H as [y [Hin E]]. apply String.eqb_eq in E. subst y. exact Hin.
+  Qed.
+
+  Lemma In_has_field s f : has_field s f = true -> f = "rename_from" -> s_rnfr s <> None.
+  Proof. intros H ->. unfold has_field in H. cbn [String.eqb Ascii.eqb Bool.eqb] in H. destruct (s_rnfr s); [discriminate|discriminate H]. Qed.
+
+  Lemma In_has_user s : has_field s "user" = true -> s_user s <> None.
+  Proof. unfold has_field. cbn [String.eqb Ascii.eqb Bool.eqb]. destruct (s_user s); [discriminate|discriminate]. Qed.
+
+  (* the WHOLE handler (decorator stack + body, delegation included) computed from the programs is the model's
+     handler, for every world: the decorators establish what rnto / pass_ read *)
+  Theorem handler_is_program_denotation : forall fuel name arg d appe w,
+    (name = "pwd" -> no_dquote (s_cwd (w_s w)) = true) ->
+    handler_prog users ref_table ref_programs fuel name arg d appe w = handler users ref_table fuel name arg d appe w.
+  Proof.
+    induction fuel as [|f IH]; intros name arg d appe w Hq; [reflexivity|].
+    cbn [handler_prog handler].
+    destruct (handler_of ref_table name) as [[ds dl]|] eqn:T; [|reflexivity].
+    destruct (table_facts name ds dl T) as (Hn & Hr & Hp).
+    apply (run_decos_ext ds arg (w_s w)); [reflexivity|].
+    intros w' Hs Hf. unfold prog_body.
+    rewrite (body_is_denotation users (handler_prog users ref_table ref_programs f) name arg d appe w').
+    - apply body_self_ext; intros a d' ap w''; apply IH; intros Q; discriminate Q.
+    - apply mem_s_In. exact Hn.
+    - repeat split; intros E.
+      + rewrite Hs. apply (In_has_field _ "rename_from"); [|reflexivity]. apply Hf. apply mem_s_In. apply Hr. exact E.
+      + rewrite Hs. apply In_has_user. apply Hf. apply mem_s_In. apply Hp. exact E.
+      + rewrite Hs. apply Hq. exact E.
+  Qed.
+End Lift.
+
+Theorem gen_handler_is_program_denotation : forall users fuel name arg d appe w,
+  (name = "pwd" -> no_dquote (s_cwd (w_s w)) = true) ->
+  handler_prog users ref_table Gen.Handlers.programs fuel name arg d appe w
+  = handler users ref_table fuel name arg d appe w.
+Proof. rewrite gen_programs. exact handler_is_program_denotation. Qed.
